@@ -17,7 +17,7 @@ optional internal value); the harness renders these to TeX source.  All numbers 
 the 32-bit (and 64-bit) width is explicit: where an `i32` operation of the Rust code would
 overflow (a panic in the build profile used by the harness) the model says `panic`.
 
-The model describes the code *with* `fixes/C06-{a,b,c,d,e,g,h}.patch` applied (see notes/C06.md).
+The model describes the code *with* `fixes/C06-{a,b,c,d,e,g,h,i}.patch` applied (see notes/C06.md).
 Core Lean only.
 -/
 namespace C06
@@ -156,6 +156,16 @@ def negParity : List Bool → Bool
   | [] => false
   | m :: ms => if m then !(negParity ms) else negParity ms
 
+/-- The digit decoding of `parse_constant`: `Value::Other(c)` is a digit `c - '0'` if that is
+`< 10` and `< RADIX`, or for `RADIX = 16` the digit `c - 'A' + 10` if `c - 'A' < 6`;
+`Value::Letter(c)` only the latter. Anything else ends the constant. -/
+def constDigit (radix : Int) (c : Char) (letter : Bool) : Option Nat :=
+  if letter then
+    (if radix = 16 ∧ 65 ≤ c.toNat ∧ c.toNat - 65 < 6 then some (c.toNat - 65 + 10) else none)
+  else if 48 ≤ c.toNat ∧ c.toNat - 48 < 10 ∧ ((c.toNat - 48 : Nat) : Int) < radix then some (c.toNat - 48)
+  else if radix = 16 ∧ 65 ≤ c.toNat ∧ c.toNat - 65 < 6 then some (c.toNat - 65 + 10)
+  else none
+
 /-- `add_lsd`. -/
 def addLsd (radix n lsd : Int) : Option Int :=
   if inI32 (n * radix) then (if inI32 (n * radix + lsd) then some (n * radix + lsd) else none)
@@ -196,7 +206,7 @@ inductive Head
   | point (frac : List Nat)
   | int (i : Int)
   | dimen (d : Int)
-  deriving Repr
+  deriving Repr, DecidableEq
 
 inductive UnitSpec
   /-- `fil` followed by `ls` more `l`s (glue context only) -/
@@ -206,7 +216,7 @@ inductive UnitSpec
   | phys (u : TUnit)
   /-- no unit found: error, `pt` -/
   | bad
-  deriving Repr
+  deriving Repr, DecidableEq
 
 /-- A scanned value: the number, how many recoverable errors were reported, the glue order. -/
 structure Scan where
